@@ -14,7 +14,11 @@ use crate::{
 #[derive(Debug, Clone, PartialEq, Eq)]
 pub enum FunctionReference {
     Foreign(CompactString),
-    Normal(CompactString),
+    /// A user-defined function: its name and the index of its bytecode chunk at the time
+    /// the reference was created. Resolving the function when the reference is created
+    /// (instead of looking up the name when it is called) keeps existing function values
+    /// bound to their function when the name is later redefined.
+    Normal(CompactString, usize),
     // TODO: We can get rid of this variant once we implement closures:
     TzConversion(CompactString),
 }
@@ -23,7 +27,7 @@ impl std::fmt::Display for FunctionReference {
     fn fmt(&self, f: &mut std::fmt::Formatter<'_>) -> std::fmt::Result {
         match self {
             FunctionReference::Foreign(name) => write!(f, "<builtin function: {name}>"),
-            FunctionReference::Normal(name) => write!(f, "<function: {name}>"),
+            FunctionReference::Normal(name, _) => write!(f, "<function: {name}>"),
             FunctionReference::TzConversion(tz) => {
                 write!(f, "<builtin timezone conversion function: {tz}>")
             }
